@@ -47,6 +47,10 @@ def ir_rules(run, u, r_static, r_lookup, r_copy, r_access):
             gl = vptr.globals_in(v)
             sv = [g for g in gl if "::static_vptr<" in g]
             tb = [g for g in gl if vptr.table_kind(g)]
+            if not sv and not tb:
+                d0 = vptr.lookup_descriptor(S2, f, v)     # element reached through a map iterator
+                if d0 is not None and vptr.table_kind(d0[0]):
+                    tb = [d0[0]]
             if sv and not tb:
                 c = re.search(r"::static_vptr<(.*)>$", sv[0]).group(1)
                 shape_ok = (v == ("global", sv[0])) if indirect else (v == ("load", ("global", sv[0])))
